@@ -144,7 +144,7 @@ where
     Fu: Future + 'static,
     Fu::Output: TupleOut,
 {
-    Box::pin(async move { Val::List(f.await.into_vec()) })
+    Box::pin(async move { Val::list(f.await.into_vec()) })
 }
 
 fn fin_try_join<Fu, T>(f: Fu) -> BoxR
@@ -154,7 +154,7 @@ where
 {
     Box::pin(async move {
         match f.await {
-            Ok(t) => Ok(Val::List(t.into_vec())),
+            Ok(t) => Ok(Val::list(t.into_vec())),
             Err(e) => Err(e),
         }
     })
@@ -162,7 +162,7 @@ where
 
 fn take_all(s: &mut [Val]) -> Vec<Val> {
     s.iter_mut()
-        .map(|v| std::mem::replace(v, Val::List(Vec::new())))
+        .map(|v| std::mem::replace(v, Val::list(Vec::new())))
         .collect()
 }
 
@@ -176,7 +176,7 @@ where
             Ok(v) => Ok(v),
             Err(mut agg) => {
                 let v = take_all(&mut agg[..]);
-                Err(Val::List(v))
+                Err(Val::list(v))
             }
         }
     })
@@ -193,7 +193,7 @@ where
             Ok(v) => Ok(v),
             Err(mut agg) => {
                 let v = std::mem::take(&mut *agg);
-                Err(Val::List(v))
+                Err(Val::list(v))
             }
         }
     })
@@ -245,7 +245,7 @@ pub fn build_fnode(parent: NodeId, idx: usize, c: &ChildSpec) -> FNode {
                     inner: Some(b),
                     mark: DropMark(id),
                 };
-                FNode::Wrapped(id, Box::pin(async move { Val::Res(Box::new(p.await)) }))
+                FNode::Wrapped(WrapF { id, inner: Some(Box::pin(async move { Val::res(p.await) })) })
             }
             Flavor::S => panic!("harness: stream child in a future combinator"),
         },
@@ -269,7 +269,7 @@ pub fn build_rnode(parent: NodeId, idx: usize, c: &ChildSpec) -> RNode {
                     inner: Some(b),
                     mark: DropMark(id),
                 };
-                RNode::Wrapped(id, Box::pin(async move { Ok(p.await) }))
+                RNode::Wrapped(WrapR { id, inner: Some(Box::pin(async move { Ok(p.await) })) })
             }
             Flavor::S => panic!("harness: stream child in a future combinator"),
         },
@@ -378,7 +378,7 @@ pub fn build_r(parent: Option<NodeId>, idx: usize, spec: &CombSpec) -> (NodeId, 
                     if n == 0 {
                         Box::pin(async move {
                             match ().try_join().await {
-                                Ok(()) => Ok(Val::List(Vec::new())),
+                                Ok(()) => Ok(Val::list(Vec::new())),
                                 Err(e) => match e {},
                             }
                         })
@@ -443,15 +443,15 @@ pub fn build_s(parent: Option<NodeId>, idx: usize, spec: &CombSpec) -> (NodeId, 
             match spec.container {
                 Container::Tuple => {
                     let mut it = v.into_iter();
-                    tuple_match!(n, it, |t| map_s(t.zip(), |x| Val::List(x.into_vec())))
+                    tuple_match!(n, it, |t| map_s(t.zip(), |x| Val::list(x.into_vec())))
                 }
-                Container::Array => array_match!(v, |a| map_s(a.zip(), |x| Val::List(x.into_vec()))),
+                Container::Array => array_match!(v, |a| map_s(a.zip(), |x| Val::list(x.into_vec()))),
                 #[cfg(feature = "has-alloc")]
-                Container::Vec => map_s(v.zip(), |x| Val::List(x)),
+                Container::Vec => map_s(v.zip(), |x| Val::list(x)),
                 Container::Ext => {
                     let mut it = v.into_iter();
                     let (a, b) = (nx!(it), nx!(it));
-                    map_s(a.zip(b), |x| Val::List(x.into_vec()))
+                    map_s(a.zip(b), |x| Val::list(x.into_vec()))
                 }
                 c => panic!("harness: zip over {:?}", c),
             }
